@@ -31,6 +31,7 @@ type op struct {
 	SetSec bool   `json:"set_secret,omitempty"` // update: which fields are changed
 	SetUID bool   `json:"set_uid,omitempty"`
 	SetGID bool   `json:"set_gid,omitempty"`
+	Pre    bool   `json:"presigned,omitempty"` // probe: authenticate with a presigned URL instead of the Authorization header
 }
 
 type result struct {
